@@ -159,7 +159,9 @@ class Pipeline:
             r = sh([sys.executable, os.path.join(VT, 'ir2c.py'), os.path.join(d, 'module.ll'), os.path.join(d, 'module.c')] + (['--uf=' + ','.join(q.uf)] if q.uf else []), timeout=300)
             if r['rc'] != 0: raise BuildError('ir2c on %s: %s' % (q.harness, r['err'][-3000:]))
             meta = json.load(open(os.path.join(d, 'module.c.meta.json')))
-            badg = [g for g in meta['extern_globals'] if g.startswith('_ZTV') and not g.startswith('_ZTVN10__cxxabiv') and not g.startswith('_ZTVS')]
+            # vtables the harness takes a vptr from (VT_DECLARE_VTABLE) must be defined by one of the linked TUs
+            wanted = set(re.findall(r'^@(_ZTV\w+) = external global \[0 x i8\*\]', open(hll).read(), re.M))
+            badg = [g for g in meta['extern_globals'] if g in wanted]
             if badg: raise BuildError('vtable symbols referenced but not defined (wrong mangled name or missing TU): ' + ', '.join(badg))
             meta['entries'] = entries; meta['overridden'] = overridden; meta['dir'] = d
             meta['build_s'] = round(time.time() - t0, 2)
@@ -281,7 +283,7 @@ class Pipeline:
             return ll, cc
         return self.once(key, build)
 
-    LIBC = set('''malloc free calloc realloc memcpy memmove memset memcmp strlen strcmp abort sqrt fabs floor ceil fmod cos sin tan acos
+    LIBC = set('''malloc free calloc realloc memcpy memmove memset memcmp bcmp strlen strcmp abort sqrt fabs floor ceil fmod cos sin tan acos
         asin atan atan2 pow exp log log2 log10 fmin fmax round trunc copysign rint nearbyint hypot cbrt tgamma lgamma nanosleep
         __errno_location printf puts putchar fprintf snprintf sprintf fwrite fflush exit _exit'''.split())
 
